@@ -1,6 +1,7 @@
 package nc
 
 import (
+	"go/types"
 	"strings"
 
 	"golang.org/x/tools/go/ssa"
@@ -30,7 +31,9 @@ func rulesC10(c *Ctx) {
 	R.Rule("R7", "crypto.Verify compares the full point", 1)
 	R.Rule("R8", "hash_to_curve hashes the whole secret (census shared with C11.R1): a signature is bound to the complete secret", 6)
 	R.Rule("R9", "restore returns the stored signature unmodified (shared with C15.R4)", 7)
+	R.Rule("R10", "the BDHKE functions are pure in their arguments: no in-place scalar / field / point operation of the curve library is applied to memory reached from a parameter (blinding factors and keys handed in stay what they were)", 4)
 	c.vocabProblems("R2")
+	c.c10ArgumentsNotMutated()
 
 	// ---- R1
 	for _, f := range c.P.Funcs {
@@ -355,5 +358,75 @@ func (c *Ctx) c10ConstructProofs(f *ssa.Function) {
 		R.Check("R4", fk, "proof stored <= no DLEQ or DLEQ verified", c.P.InstrPos(store), !reach, "a signature that carries a DLEQ becomes a proof only when the DLEQ verified", why)
 	} else {
 		R.Check("R4", fk, "DLEQ verification present", c.P.Pos(f.Pos()), false, "DLEQs returned by the mint are verified", "no call of VerifyBlindSignatureDLEQ")
+	}
+}
+
+// c10ArgumentsNotMutated: R10. In package crypto, a method of the curve library's scalar / field / point types
+// that writes its receiver (everything outside a short read-only list) is never called on an address derived from
+// a parameter: ModNScalar.Negate() on &r.Key flips the caller's blinding factor although the returned point is right.
+func (c *Ctx) c10ArgumentsNotMutated() {
+	R := c.R
+	readOnly := map[string]bool{"IsZero": true, "IsZeroBit": true, "IsOdd": true, "IsOne": true, "IsOverHalfOrder": true, "Equals": true, "Bytes": true,
+		"PutBytes": true, "PutBytesUnchecked": true, "String": true, "IsGtOrEqPrimeMinusOrder": true, "IsOneBit": true, "IsOddBit": true,
+		"ToECDSA": true, "PubKey": true, "Serialize": true, "SerializeCompressed": true, "SerializeUncompressed": true, "AsJacobian": true,
+		"IsEqual": true, "IsOnCurve": true, "X": true, "Y": true}
+	var paramRoot func(v ssa.Value, depth int) *ssa.Parameter
+	paramRoot = func(v ssa.Value, depth int) *ssa.Parameter {
+		if depth > 6 {
+			return nil
+		}
+		switch x := v.(type) {
+		case *ssa.Parameter:
+			if _, isPtr := x.Type().Underlying().(*types.Pointer); isPtr {
+				return x
+			}
+		case *ssa.FieldAddr:
+			return paramRoot(x.X, depth+1)
+		case *ssa.IndexAddr:
+			return paramRoot(x.X, depth+1)
+		case *ssa.UnOp:
+			if x.Op.String() == "*" {
+				// a pointer loaded from memory reached from a parameter
+				return paramRoot(x.X, depth+1)
+			}
+		case *ssa.ChangeType:
+			return paramRoot(x.X, depth+1)
+		}
+		return nil
+	}
+	n := 0
+	for _, f := range c.P.Funcs {
+		top := EnclosingTop(f)
+		if top.Pkg == nil || c.P.Rel(top.Pkg.Pkg.Path()) != "crypto" {
+			continue
+		}
+		fk := c.P.FuncKey(top)
+		bad := ""
+		calls := 0
+		for _, ci := range Calls(f) {
+			cc := ci.Common()
+			callee := cc.StaticCallee()
+			if callee == nil || callee.Signature.Recv() == nil || callee.Pkg == nil || !strings.Contains(callee.Pkg.Pkg.Path(), "secp256k1") || len(cc.Args) == 0 {
+				continue
+			}
+			if _, ptrRecv := callee.Signature.Recv().Type().(*types.Pointer); !ptrRecv {
+				continue
+			}
+			calls++
+			if readOnly[callee.Name()] {
+				continue
+			}
+			if p := paramRoot(cc.Args[0], 0); p != nil {
+				bad = callee.Name() + " writes its receiver, which is memory of parameter " + p.Name() + " (" + c.P.InstrPos(ci) + ")"
+			}
+		}
+		if calls == 0 {
+			continue
+		}
+		n++
+		R.Check("R10", fk, "arguments are not modified in place", c.P.Pos(top.Pos()), bad == "", "no receiver-writing curve operation is applied to memory reached from a parameter", bad)
+	}
+	if n == 0 {
+		R.Unresolved("R10", "curve-library method calls in package crypto", "none found")
 	}
 }
